@@ -25,7 +25,7 @@ Expected(e) ==
     [] e.ev = "cleanup" -> Cleanup(P)
 Verdict(e) ==
   LET x == Expected(e) IN
-  IF e.res # x.r THEN "PID_" \o e.ev \o "_" \o (IF x.r = "" THEN "none" ELSE x.r) \o "_got_" \o e.res
+  IF e.res # x.r THEN "PID_" \o e.ev \o "_" \o (IF x.r = "" THEN "none" ELSE x.r)
   ELSE IF NormFile(e.file) # x.P.file THEN "PID_file_after_" \o e.ev
   ELSE ""
 TraceInit == tid \in 1..Len(Traces) /\ l = 1 /\ P = [file |-> NoFile, procs |-> <<>>, lock |-> FALSE] /\ bad = "none"
